@@ -34,6 +34,7 @@ LIB_PROGRAMS = [
     ("r = ndx.astype(a, ndx.nfloat64)", [("cast", "r")], NUMS),
     ("r = ndx.where(a == a, a, a)", [("w2", "r")], [x for x in ALL if x.startswith("n")]),
     ("r = ndx.logical_and(a > 0, a < 5)", [("m", "r")], NUMS),
+    ("z = ndx.reshape(a, [-1])[0]; r = z.copy(); r[ndx.asarray(np.array(True))] = z", [("scalar_assigned", "r")], ALL, 1),
     # indexing with new axes next to stepped / bounded slices (declared dims must survive the checker's shape inference)
     ("r = a[None, 1:, ...]", [("g1", "r")], ALL, 1), ("r = a[..., None, ::2]", [("g2", "r")], ALL, 1), ("r = a[None, ::-1, ...]", [("g3", "r")], ALL, 1),
     ("r = a[0:1, None, ...]", [("g4", "r")], ALL, 1), ("r = a[None, :, 1:]", [("g5", "r")], ALL, 2), ("r = a[None, None, 1:3, ...]", [("g6", "r")], ALL, 1),
